@@ -228,10 +228,14 @@ def _flag_sdrain(client_py: ast.Module) -> bool:
         if len(loops) != 1 or _count(fn, "_read_batch_with_log_check(") != 1:
             raise TranslationBroken(site, "drain loop not found exactly once")
         body = _text(loops[0].body)
-        last = ast.unparse(fn.body[-1])
+        # the statement that follows the `with contextlib.suppress(...)` block holding the loop
+        holders = [k for k, st in enumerate(fn.body) if isinstance(st, ast.With) and any(n is loops[0] for n in ast.walk(st))]
+        if len(holders) != 1:
+            raise TranslationBroken(site, "drain loop is not inside one top-level with-block")
+        after = ast.unparse(fn.body[holders[0] + 1]) if holders[0] + 1 < len(fn.body) else ""
         if body == _LOOP_OLD and "release" not in ast.unparse(fn):
             out.append(False)
-        elif body == _LOOP_NEW and last == _LOOP_TAIL and _count(fn, "drained") == 3:
+        elif body == _LOOP_NEW and after == _LOOP_TAIL and _count(fn, "drained") - _count(fn, "_drained") == 3:
             out.append(True)
         else:
             raise TranslationBroken(site, "drain loop has an unknown shape")
@@ -248,17 +252,25 @@ def _flag_udrain(wire_py: ast.Module) -> bool:
         raise TranslationBroken(site, "expected exactly two try statements")
     t1, t2 = b
     assert isinstance(t1, ast.Try) and isinstance(t2, ast.Try)
-    if _text(t1.body) != "batch = _read_batch_with_log_check(reader, on_log, external_config, shm=shm)" or len(t1.handlers) != 1 or ast.unparse(t1.handlers[0].type or ast.Constant(None)) != "RpcError":
+    if _text(t1.body) != "batch = _read_batch_with_log_check(reader, on_log, external_config, shm=shm)" or t1.orelse or t1.finalbody:
         raise TranslationBroken(site, "first try changed shape")
     if _text(t2.finalbody) != "batch.release()" or t2.handlers:
         raise TranslationBroken(site, "the result batch is not released in a bare finally")
-    arm = _text(t1.handlers[0].body)
+    arms = [(ast.unparse(h.type) if h.type is not None else "", _text(h.body)) for h in t1.handlers]
+    # the arm that drains the rest of the response: `except RpcError` or, since the on_log fix, `except Exception`
+    # after a transport-error arm that re-raises without draining
+    if len(arms) == 1 and arms[0][0] == "RpcError":
+        arm = arms[0][1]
+    elif len(arms) == 2 and arms[0] == ("(pa.ArrowInvalid, OSError, EOFError)", "raise") and arms[1][0] == "Exception":
+        arm = arms[1][1]
+    else:
+        raise TranslationBroken(site, f"unknown exception arms {[a for a, _ in arms]}")
     drain = _text(_body(_func(wire_py, "_drain_stream", "_wire.py:_drain_stream")))
     if arm == "_drain_stream(reader)\nraise" and drain == _DRAIN_OLD:
         return False
     if arm == "_drain_stream(reader, shm=shm)\nraise" and drain == _DRAIN_NEW:
         return True
-    raise TranslationBroken(site, "RpcError arm / _drain_stream have an unknown shape")
+    raise TranslationBroken(site, "draining arm / _drain_stream have an unknown shape")
 
 
 def _fixed_sites(wire_py: ast.Module, client_py: ast.Module, types_py: ast.Module) -> None:
